@@ -223,3 +223,30 @@ Theorem C09_add_invariant_stores_only_allowed :
     forall p, In p (stored_min m) -> exists al, allowed_pos HO s R = Some al /\ In p al.
 Proof. exact MapMutAdd.Inv_stores_allowed. Qed.
 Print Assumptions C09_add_invariant_stores_only_allowed.
+
+(** ** Every history (Proofs/MapMutUnify.v): from the empty forest - any allocated height, full or
+    partial - EVERY valid sequence of deletion-free blocks, prunes, ingests and verifications with
+    remembering runs without error on the mirror and ends in a state that is consistent with the
+    reference forest (so every read-side theorem above applies: true hashes, remembered leaves provable
+    with the canonical proof, ...) and, for a partial forest, stores only allowed positions.
+    One invariant ([MapMutAdd.Inv]) is preserved by all these operations; blocks WITH deletions and
+    Undo are not covered by this theorem (validated by the correspondence run only). *)
+From Utreexo Require Proofs.MapMutUnify.
+
+Theorem C09_every_history_of_adds_prunes_ingests :
+  forall (H : Type) (HO : ops H), ops_ok HO ->
+  (forall x y, op_eqb HO (op_hash2 HO x y) (op_empty HO) = false) ->
+  forall (T : N) (full : bool) (l : list (MapMutUnify.mop H)),
+    T <= 63 -> MapMutUnify.hvalid H HO full ([], []) l ->
+    exists m,
+      MapMutUnify.hrun H HO full ([], []) (mkM [] [] 0 T full) l = Some m /\
+      MapMutAdd.Inv H HO (fst (MapMutUnify.hfinal H HO full ([], []) l))
+                         (snd (MapMutUnify.hfinal H HO full ([], []) l)) m /\
+      consistent HO (fst (MapMutUnify.hfinal H HO full ([], []) l))
+                    (snd (MapMutUnify.hfinal H HO full ([], []) l)) m /\
+      ms_full m = full /\
+      (full = false -> forall p, In p (stored_min m) ->
+         exists al, allowed_pos HO (fst (MapMutUnify.hfinal H HO full ([], []) l))
+                                   (snd (MapMutUnify.hfinal H HO full ([], []) l)) = Some al /\ In p al).
+Proof. exact MapMutUnify.history_ok. Qed.
+Print Assumptions C09_every_history_of_adds_prunes_ingests.
